@@ -78,6 +78,9 @@ class _FormattingHandler(_logging.Handler):
 _FORMATTING_HANDLER = _FormattingHandler()
 
 
+ODD_DIR_NAMES = [" [2]", "[stable]", "[!b]c", " (old)", "{a,b}", "*", "?", "%41", " +x", "~", "#1", "$HOME", "\u00e9t\u00e9", "a\\b", "'q'", ".d", "-n", "^a$", "a|b", "&"]
+
+
 def host_env(debug_logging: bool, warnings_as_errors: bool):
     """The host application's process-wide configuration around a library call: logging lowered to DEBUG with a handler that
     formats every record, and / or warnings escalated to errors. Returns a context manager."""
@@ -137,7 +140,16 @@ class World:
     def __init__(self, scn: dict):
         self.scn = scn
         _counter[0] += 1
-        self.scratch = os.path.join(scratch_root(), "w%d" % _counter[0])
+        # where the checkout lives is the user's business: every other workspace sits under a directory whose name holds characters
+        # that mean something to glob / fnmatch / regular expressions / URL quoting / shells (all legal in a path)
+        import zlib as _z
+        from ..core.scenario import cjson as _cj
+        odd = scn.get("odd_dir")
+        if odd is None:
+            hh = _z.crc32(b"dir" + _cj(scn["ws"]).encode("ascii"))
+            odd = ODD_DIR_NAMES[(hh >> 3) % len(ODD_DIR_NAMES)] if hh % 2 else ""
+        self.odd_dir = odd
+        self.scratch = os.path.join(scratch_root(), "w%d%s" % (_counter[0], odd))
         if os.path.exists(self.scratch):
             shutil.rmtree(self.scratch)
         os.makedirs(self.scratch)
